@@ -36,11 +36,15 @@ def parse(text, ts):
     return mt.parse(text, ts, scrub_first=True)
 
 
-def check(ctx, a, b, ts, source):
+SEPARATORS = ['\n', '\n', '\n', '  \n', '\t\n', ' \t \n', '    \n', '        \n']       # a blank line may consist of spaces and tabs
+
+
+def check(ctx, a, b, ts, source, sep=None):
     ctx.ev()
+    sep = sep or SEPARATORS[ctx.case_index % len(SEPARATORS)]
     if not a.endswith('\n'):
         a += '\n'
-    case = {'a': a, 'b': b, 'token_set': ts, 'source': source}
+    case = {'a': a, 'b': b, 'token_set': ts, 'source': source, 'sep': sep}
     if ']:' in a or ']:' in b:
         ctx.count('skipped_by_filter', 'text contains "]:"')
         return
@@ -56,7 +60,7 @@ def check(ctx, a, b, ts, source):
         if da.footnotes or db.footnotes:
             ctx.count('skipped_by_filter', 'defines link references')
             return
-        dc = parse(a + '\n' + b, ts)
+        dc = parse(a + sep + b, ts)
     except Exception as e:  # noqa
         ctx.count('ambient', 'C01:' + mt.exc_site(e))
         return
@@ -149,4 +153,4 @@ def finalize(m, tier):
 
 
 def replay(ctx, case):
-    check(ctx, case['a'], case['b'], case.get('token_set'), case.get('source', 'replay'))
+    check(ctx, case['a'], case['b'], case.get('token_set'), case.get('source', 'replay'), case.get('sep'))
